@@ -3,9 +3,10 @@
 
   * `digits_recombine_mod : Σ_{j<n} digit_j(x)·2^{wj} = x mod 2^{wn}` (unconditional), hence
     `digits_recombine` (`x < 2^{wn}` ⇒ exact) and `digits_drop_top` (`x ≥ 2^{wn}` ⇒ NOT exact).
-  * `roundLog2` facts; `digitCount_sufficient_iff`: for `2^k < q < 2^{k+1}`, the code's
-    `BaseTwoDecompositionVectorSize` entry covers `q` iff `q ≥ 2^{k+1/2}` or `w ∤ k`.
-  * `digitCount_sufficient_counterexample` (q = 1207959937, w = 10) and `_partial`.
+  * `digitCount_sufficient`: the code's count `⌈bitlen(q)/w⌉` (fix C04-1) always covers `q`.
+  * regression (PRE-FIX formula `⌈round(log2 q)/w⌉`, `baseTwoDigitsRoundLog2`): `roundLog2` facts;
+    `digitCountRoundLog2_sufficient_iff`: for `2^k < q < 2^{k+1}` it covers `q` iff `q ≥ 2^{k+1/2}` or
+    `w ∤ k`; `digitCountRoundLog2_counterexample` (q = 1207959937, w = 10).
 -/
 import Lattigo.Model.KeySwitch
 import Mathlib.Algebra.BigOperators.Group.Finset.Basic
@@ -93,32 +94,32 @@ theorem mul_ceilDiv_eq_of_dvd (r w : Nat) (hw : 0 < w) (hd : w ∣ r) :
     omega
   rw [this]
 
-/-- **digitCount_sufficient_iff**: for a modulus with `2^k < q < 2^{k+1}` and a base `2^w` (`w > 0`), the
-    number of digits `n = BaseTwoDecompositionVectorSize[i]` the code allots satisfies `q ≤ 2^{w·n}`
+/-- **regression, pre-fix formula**: for a modulus with `2^k < q < 2^{k+1}` and a base `2^w` (`w > 0`), the
+    number of digits `n = ⌈round(log2 q)/w⌉` the code USED to allot satisfies `q ≤ 2^{w·n}`
     (every residue below `q` is covered) IFF `q ≥ 2^{k+1/2}` or `w ∤ k`.
-    So the code is wrong exactly for the primes in `(2^k, 2^{k+1/2})` with `w ∣ k`. -/
-theorem digitCount_sufficient_iff (q k w : Nat) (hw : 0 < w) (h1 : 2 ^ k < q) (h2 : q < 2 ^ (k + 1)) :
-    q ≤ 2 ^ (w * baseTwoDigits q w) ↔ (2 ^ (2 * k + 1) ≤ q * q ∨ ¬ w ∣ k) := by
+    So the pre-fix code was wrong exactly for the primes in `(2^k, 2^{k+1/2})` with `w ∣ k`. -/
+theorem digitCountRoundLog2_sufficient_iff (q k w : Nat) (hw : 0 < w) (h1 : 2 ^ k < q) (h2 : q < 2 ^ (k + 1)) :
+    q ≤ 2 ^ (w * baseTwoDigitsRoundLog2 q w) ↔ (2 ^ (2 * k + 1) ≤ q * q ∨ ¬ w ∣ k) := by
   constructor
   · intro h
     by_contra hc
     rw [not_or, not_not] at hc
     obtain ⟨hlow, hd⟩ := hc
     have hr := roundLog2_eq_low (Nat.le_of_lt h1) h2 (Nat.not_le.mp hlow)
-    simp only [baseTwoDigits, hr, mul_ceilDiv_eq_of_dvd k w hw hd] at h
+    simp only [baseTwoDigitsRoundLog2, hr, mul_ceilDiv_eq_of_dvd k w hw hd] at h
     omega
   · rintro (hhigh | hnd)
     · have hr := roundLog2_eq_high (Nat.le_of_lt h1) h2 hhigh
-      simp only [baseTwoDigits, hr]
+      simp only [baseTwoDigitsRoundLog2, hr]
       have := mul_ceilDiv_ge (k + 1) w hw
       exact Nat.le_trans (Nat.le_of_lt h2) (Nat.pow_le_pow_right (by decide) this)
     · rcases Nat.lt_or_ge (q * q) (2 ^ (2 * k + 1)) with hlow | hhigh
       · have hr := roundLog2_eq_low (Nat.le_of_lt h1) h2 hlow
-        simp only [baseTwoDigits, hr]
+        simp only [baseTwoDigitsRoundLog2, hr]
         have := mul_ceilDiv_gt_of_not_dvd k w hw hnd
         exact Nat.le_trans (Nat.le_of_lt h2) (Nat.pow_le_pow_right (by decide) this)
       · have hr := roundLog2_eq_high (Nat.le_of_lt h1) h2 hhigh
-        simp only [baseTwoDigits, hr]
+        simp only [baseTwoDigitsRoundLog2, hr]
         have := mul_ceilDiv_ge (k + 1) w hw
         exact Nat.le_trans (Nat.le_of_lt h2) (Nat.pow_le_pow_right (by decide) this)
 
@@ -126,40 +127,50 @@ theorem digitCount_sufficient_iff (q k w : Nat) (hw : 0 < w) (h1 : 2 ^ k < q) (h
 theorem roundLog2_witness : roundLog2 1207959937 = 30 :=
   roundLog2_eq_low (k := 30) (by norm_num) (by norm_num) (by norm_num)
 
-theorem baseTwoDigits_witness : baseTwoDigits 1207959937 10 = 3 := by
-  simp only [baseTwoDigits, roundLog2_witness]
+theorem baseTwoDigitsRoundLog2_witness : baseTwoDigitsRoundLog2 1207959937 10 = 3 := by
+  simp only [baseTwoDigitsRoundLog2, roundLog2_witness]
 
-/-- **digitCount_sufficient is FALSE** for the code as written: the statement
-    `∀ q w, 0 < w → q ≤ 2^(w · baseTwoDigits q w)` fails at `q = 1207959937` (an NTT-friendly prime
-    for `N ≤ 64`), `w = 10` (also 15, and every divisor of 30). -/
-theorem digitCount_sufficient_counterexample :
-    ¬ (∀ q w : Nat, 0 < w → q ≤ 2 ^ (w * baseTwoDigits q w)) := by
+/-- the PRE-FIX count does not always cover the modulus (the defect fixed by C04-1): witness
+    `q = 1207959937` (an NTT-friendly prime for `N ≤ 64`), `w = 10` (also 15, and every divisor of 30) -/
+theorem digitCountRoundLog2_counterexample :
+    ¬ (∀ q w : Nat, 0 < w → q ≤ 2 ^ (w * baseTwoDigitsRoundLog2 q w)) := by
   intro h
   have := h 1207959937 10 (by decide)
-  rw [baseTwoDigits_witness] at this
+  rw [baseTwoDigitsRoundLog2_witness] at this
   norm_num at this
 
-/-- and the consequence on the digits: a residue `x < q` whose top bit is lost -/
-theorem digits_recombine_counterexample :
-    ∃ q w x : Nat, 0 < w ∧ x < q ∧ recombine w (baseTwoDigits q w) x ≠ x := by
+/-- …and its consequence on the digits: a residue `x < q` whose top bit was lost -/
+theorem digitsRoundLog2_recombine_counterexample :
+    ∃ q w x : Nat, 0 < w ∧ x < q ∧ recombine w (baseTwoDigitsRoundLog2 q w) x ≠ x := by
   refine ⟨1207959937, 10, 2 ^ 30, by decide, by norm_num, ?_⟩
-  rw [baseTwoDigits_witness, digits_recombine_mod]
+  rw [baseTwoDigitsRoundLog2_witness, digits_recombine_mod]
   norm_num
 
-/-- **digitCount_sufficient_partial**: under the hypothesis the proof forces — the allotted digits cover
-    the bit length, `q ≤ 2^{w·n}` — every residue recombines.  (By `digitCount_sufficient_iff` the
-    hypothesis holds for the code's `n` iff `q ≥ 2^{k+1/2}` or `w ∤ k`.) -/
-theorem digitCount_sufficient_partial (q w x : Nat) (hcover : q ≤ 2 ^ (w * baseTwoDigits q w))
-    (hx : x < q) : recombine w (baseTwoDigits q w) x = x :=
-  digits_recombine_of_modulus w _ q x hcover hx
+/-! ### the code's count (after fix C04-1) -/
 
-/-- with the patched count `⌈bitlen(q)/w⌉` (bitlen = `log2 q + 1`) the hypothesis always holds -/
-def baseTwoDigitsFixed (q w : Nat) : Nat := (Nat.log2 q + 1 + w - 1) / w
+theorem lt_two_pow_bitLen (q : Nat) : q < 2 ^ bitLen q := by
+  unfold bitLen
+  split
+  · next h => subst h; decide
+  · exact Nat.lt_log2_self
 
-theorem digitCount_fixed_sufficient (q w : Nat) (hw : 0 < w) :
-    q ≤ 2 ^ (w * baseTwoDigitsFixed q w) := by
-  have h := mul_ceilDiv_ge (Nat.log2 q + 1) w hw
-  exact Nat.le_trans (Nat.le_of_lt Nat.lt_log2_self)
-    (Nat.pow_le_pow_right (by decide) (by simpa [baseTwoDigitsFixed] using h))
+/-- **digitCount_sufficient**: the number of digits `BaseTwoDecompositionVectorSize` allots to `q`
+    always covers `q`: `q ≤ 2^{w·n}` for every `q` and every `w > 0`. -/
+theorem digitCount_sufficient (q w : Nat) (hw : 0 < w) : q ≤ 2 ^ (w * baseTwoDigits q w) := by
+  have h := mul_ceilDiv_ge (bitLen q) w hw
+  exact Nat.le_trans (Nat.le_of_lt (lt_two_pow_bitLen q))
+    (Nat.pow_le_pow_right (by decide) (by simpa [baseTwoDigits] using h))
+
+/-- hence every residue `x < q` is reassembled exactly from the digits the code extracts -/
+theorem digits_recombine_code (q w x : Nat) (hw : 0 < w) (hx : x < q) :
+    recombine w (baseTwoDigits q w) x = x :=
+  digits_recombine_of_modulus w _ q x (digitCount_sufficient q w hw) hx
+
+theorem bitLen_witness : bitLen 1207959937 = 31 := by
+  have : Nat.log2 1207959937 = 30 := log2_eq_of_bounds (k := 30) (by norm_num) (by norm_num)
+  simp [bitLen, this]
+
+theorem baseTwoDigits_witness : baseTwoDigits 1207959937 10 = 4 := by
+  simp only [baseTwoDigits, bitLen_witness]
 
 end Lattigo.KS
